@@ -5,7 +5,8 @@ import pktgen
 SLICE = "REPARSE (Packet::parse, then build_bytes_vec / build_bytes_vec_compressed of the parsed value, then Packet::parse of each)"
 RULE = ("parser-accepted inputs: reference-encoded messages over all types with arbitrary non-canonical compression, unknown "
         "types, empty RDATA, OPT at any additional position, two and three OPT records (also outside the additional section), every header word family (all opcodes x rcodes), plus the accepted "
-        "outputs of the malformation generator. non-trivial = input accepted; distinct = distinct canonical outputs")
+        "outputs of the malformation generator; one RDATA of 257..65535 bytes (around every power of two) of every type with a "
+        "variable-length part. non-trivial = input accepted; distinct = distinct canonical outputs")
 KNOWN_KEYS = {"reserved-rcode-or-opcode": "Reserved opcode/rcode re-serialised as 6 / (17 & 0xF)"}
 
 
@@ -24,6 +25,9 @@ def cases(rng, tier):
     for p in pktgen.big_packets(rng, 3 if tier == "quick" else 12) + pktgen.straddle_packets(rng, (1, 5, 6, 11)):
         b, _ = dns.encode_marked(p, rng, 0)
         out.append("REPARSE " + b.hex())
+    # one large RDATA of every variable-length type, up to what an RDLENGTH can announce
+    for p in pktgen.blob_packets(tier):
+        out.append("REPARSE " + dns.enc_packet_ref(p).hex())
     # two (or three) OPT records in one message: the first of the additional section is lifted into the header data,
     # the others stay where they are - in the additional section or, illegally but accepted, in another section
     def opt_rr(udp, ext, ver, flags, opts=b""):
